@@ -10,7 +10,7 @@
 Require Import Cherab.Common.Qx.
 Require Import Cherab.Model.C18_Laser Cherab.Model.C18_Spectrum.
 Require Import Cherab.Proofs.C18_Segments Cherab.Proofs.C18_Profile Cherab.Proofs.C18_Density Cherab.Proofs.C18_Spectrum.
-Require Import Cherab.Proofs.C18_EndToEnd.
+Require Import Cherab.Proofs.C18_EndToEnd Cherab.Proofs.C18_Nodes.
 Require Import Cherab.Model.C18_Float Cherab.Proofs.C18_Float.
 Open Scope Q_scope.
 
@@ -174,6 +174,17 @@ Theorem C18_integrals_after_any_history_partial :
 Proof. exact integrals_after_any_history_partial. Qed.
 Print Assumptions C18_integrals_after_any_history_partial.
 
+(* several Laser nodes sharing one profile: after any history of profile calls (MOp), further nodes attaching
+   (MAttachNode) and nodes being given another profile (MReplaceNode), the first node and every node that still
+   listens hold exactly the segments of the CURRENT laser_radius / laser_length, and the profile is the fresh object *)
+Theorem C18_shared_profile_nodes_agree :
+  forall c k a s0 ops, construct c k a = Some s0 -> forallb (mclean k) ops = true ->
+  let m := fst (mrun c (mkM s0 []) ops) in
+  geom (base m) = cur_segments (base m) /\ List.Forall (fun g => g = cur_segments (base m)) (extras m) /\
+  construct c k (args_of (base m)) = Some (base m).
+Proof. exact shared_profile_nodes_agree. Qed.
+Print Assumptions C18_shared_profile_nodes_agree.
+
 (* get_polarization returns a unit vector (len = the square root taken by Vector3D.normalise) *)
 Theorem C18_polarisation_is_normalised :
   forall len p, len * len == norm2 p -> ~ len == 0 -> norm2 (pol_eval len p) == 1.
@@ -299,6 +310,12 @@ Theorem C18_beam_rejected_setter_leaves_stale_parameter :
     r = RValue /\ get Fsw (vals s) = x /\ efun s = efun s0 /\ construct c KBeam (args_of s) = None.
 Proof. exact beam_rejected_setter_leaves_stale_parameter. Qed.
 Print Assumptions C18_beam_rejected_setter_leaves_stale_parameter.
+
+(* The integral clauses over the real numbers (Coquelicot + Interval) are in the sibling property file
+   coq/Properties/C18_Real.v: C18_normal_density_integrates_real, C18_normal_density_tail_real,
+   C18_bivariate_cross_section_real, C18_beam_cross_section_real, C18_trivariate_volume_real and their conjunction
+   C18_integrals_over_the_reals (kept apart so that coqchk of this file does not have to re-check the closure of
+   Interval, which takes more than 40 minutes). *)
 
 (* non-vacuity: the hypotheses of the theorems above are satisfiable (pi := 2, sigma := 1: sqrt(2 pi sigma^2) = 2
    is rational; exp := constant 1 is multiplicative) *)
